@@ -320,6 +320,8 @@ class LabeledUndirectedGraph : protected LabeledDirectedGraph<EdgeLabel> {
         Edges(const LabeledUndirectedGraph<EdgeLabel> &graph) : graph(graph) {}
 
         constEdgeIterator begin() const {
+            if (graph.getSize() == 0)
+                return end();
             VertexIndex endVertex = getEndVertex(graph);
 
             VertexIndex vertexWithFirstEdge = 0;
@@ -333,6 +335,10 @@ class LabeledUndirectedGraph : protected LabeledDirectedGraph<EdgeLabel> {
             return constEdgeIterator(graph, vertexWithFirstEdge, neighbour);
         }
         constEdgeIterator end() const {
+            if (graph.getSize() == 0)
+                return constEdgeIterator(
+                    graph, 0, Successors::const_iterator()
+                );
             VertexIndex lastVertex = getEndVertex(graph);
             return constEdgeIterator(
                 graph, lastVertex, graph.getOutNeighbours(lastVertex).end()
